@@ -101,12 +101,37 @@ def translate(d, main, shadow):
     return out
 
 
-def restore(tree, how, tmpdir):
+def dict_fingerprint(d):
+    return repr((sorted((repr(k), [dp.idx for dp in v]) for k, v in d["node_data"].items()),
+                 sorted((repr(k), v) for k, v in d["node_idx"].items()), list(d["graph"]), repr(d["node_last_added_to"])))
+
+
+def edit_in_place(tree, rng):
+    """In-place edits of the kind the subtree sampler applies to the tree it is handed (itself usually a tree restored
+    from a particle's dictionary): take an outlier out and put it back, move a data point out of a clone and back."""
+    outs = tree.outliers
+    if outs:
+        dp = outs[int(rng.integers(0, len(outs)))]
+        tree.remove_data_point_from_outliers(dp)
+        n_edits = 1
+    else:
+        n_edits = 0
+    for node in tree.nodes:
+        if tree.get_data_len(node) > 1:
+            dp = tree.get_data(node)[0]
+            tree.remove_data_point_from_node(dp, node)
+            tree.add_data_point_to_outliers(dp)
+            n_edits += 1
+            break
+    return n_edits
+
+
+def restore(tree, how, tmpdir, keep_dict=False):
     from phyclone.tree import Tree
 
     d = tree.to_dict()
     if how == "dict":
-        return Tree.from_dict(d)
+        return (Tree.from_dict(d), d) if keep_dict else Tree.from_dict(d)
     if how == "pickle":
         return Tree.from_dict(pickle.loads(pickle.dumps(d, protocol=pickle.HIGHEST_PROTOCOL)))
     if how == "gzip":
@@ -122,7 +147,7 @@ def restore(tree, how, tmpdir):
 def history_task(task):
     """One shard: ``count`` histories of ``steps`` steps.  task['monitors'] subset of {'rebuild','wellformed','serial'}."""
     from vlib.harness import Partial, describe_exception
-    from phyclone.tree import FSCRPDistribution, TreeJointDistribution
+    from phyclone.tree import FSCRPDistribution, Tree, TreeJointDistribution
     from phyclone.tree.utils import _convolve_two_children, compute_log_S
 
     part = Partial()
@@ -217,6 +242,23 @@ def history_task(task):
                                 part.count("serial_roundtrips_outlier_only")
                             monitors.tree_wellformed(r)
                             shadows.append([r, how, 12, True])
+                            # the dictionary form is a value: editing a tree restored from it (as the subtree sampler
+                            # edits the tree it is handed) or the original must not change it
+                            r2, d2 = restore(new, "dict", tmpdir, keep_dict=True)
+                            fp = dict_fingerprint(d2)
+                            if edit_in_place(r2, rng):
+                                part.count("serial_dict_alias_evaluations")
+                                if dict_fingerprint(d2) != fp:
+                                    raise Broken("editing a tree restored from a dictionary changed that dictionary "
+                                                 "(shared containers between the dictionary form and the tree)")
+                                r3 = Tree.from_dict(d2)
+                                trees_equivalent(new, r3, tds)
+                            d3 = new.to_dict()
+                            fp3 = dict_fingerprint(d3)
+                            probe = new.copy()
+                            edit_in_place(probe, rng)
+                            if dict_fingerprint(d3) != fp3:
+                                raise Broken("the dictionary form changed after a copy of its tree was edited")
                     part.see("%s|%s" % (d["op"], gen.key_str(gen.tree_key(new))))
                 if len(part.samples) < 2:
                     part.sample({"case": case, "first_ops": hist.log[:6], "final": gen.key_str(gen.tree_key(hist.tree))})
